@@ -172,7 +172,7 @@ def gen(rng):
         names.append('abyss')
     voltd = [t for t in locs if t[1] is not None]
     if abyss:
-        argv = ['trash-empty'] + rng.choice([[], ['-v'], ['0']])
+        argv = ['trash-empty'] + rng.choice([[], ['-v'], ['0'], ['-vv']])
     elif voltd and rng.random() < 0.12:
         # --trash-dir spelled through '<symlink>/..': the kernel resolves it to the volume's trash directory; a textual
         # normalisation would name ANOTHER directory, which exists and has files/ and info/ of its own
@@ -186,9 +186,9 @@ def gen(rng):
         steps.append(['f', decoy + '/files/thesis.txt', 'not yours to purge', 0o644])
         steps.append(['f', decoy + '/files/unrecorded', 'no info for this one', 0o644])
         steps.append(['f', decoy + '/info/thesis.txt.trashinfo', G.fmt_info(TG.pct(home + '/w/thesis.txt'), '2001-01-01T00:00:00'), 0o600])
-        argv = ['trash-empty', '--trash-dir', spelled] + rng.choice([[], ['0'], ['-v']])
+        argv = ['trash-empty', '--trash-dir', spelled] + rng.choice([[], ['0'], ['-v'], ['-vv'], ['-v', '-v']])
     elif rng.random() < 0.6:
-        argv = ['trash-empty'] + rng.choice([[], [], ['0'], ['1'], ['-v'], ['-f', '3'], ['--trash-dir', locs[0][0]]])
+        argv = ['trash-empty'] + rng.choice([[], [], ['0'], ['1'], ['-v'], ['-vv'], ['-v', '-v', '0'], ['-f', '3'], ['--trash-dir', locs[0][0]]])
     else:
         argv = ['trash-rm', rng.choice(['*', '*', rng.choice(names), 'p*', home + '/*', '/*', '?*', '*.trashinfo'])]
     return {
